@@ -712,6 +712,28 @@ def capacity_walk(r):
     return ops
 
 
+def big_table(r, quick):
+    """a table grown past uthash's bucket expansions (32 -> 64 -> 128 … buckets; an expansion happens when a chain exceeds 10
+    entries per bucket on average, i.e. past 320, 640 … entries), by a build and by single sets; then cloned, thinned out,
+    partly re-spelled, and released.  Used by family valheap (the dumps of family val would be several MB per case)."""
+    n = r.randint(330, 420) if quick else r.randint(330, 900)
+    keys = ["k%d%s" % (i, r.choice(["", "", "\u00e9", " x", "\u212b"])) for i in range(n)]
+    r.shuffle(keys)
+    half = n // 2
+    t0, s1, t2 = ("s", 0, []), ("s", 1, []), ("s", 2, [])
+    ops = [("bld", t0, ("T", [(G.units_of(k.replace("\u212b", "\u00c5")), small_leaf(r) if r.random() < 0.3 else ("U",)) for k in keys[:half]])),
+           ("bld", s1, small_leaf(r))]
+    for k in keys[half:]:
+        ops.append(("tset", t0, k, s1 if r.random() < 0.5 else None))
+    ops += [("cnt", t0), ("cln", t0, t2)]
+    for k in r.sample(keys, n // 3):
+        ops.append(("trem", t0, k, None))
+    for k in r.sample(keys, 10):
+        ops.append(("tset", t0, k.replace("\u00e9", "e\u0301").replace("\u212b", "A\u030a"), s1))
+    ops += [("free", t0), ("tget", t2, keys[0]), ("trem", t2, keys[1], ("s", 3, [])), ("cnt", t2)]
+    return ops
+
+
 def request(ops):
     return "val " + " | ".join(" ".join(op_tokens(o)) for o in ops)
 
